@@ -228,6 +228,38 @@ extern size_t vc_k;
     ((ret) ==> (p)->error_flags == BINSON_ERROR_NONE)
 #define VC_ADV_POST_MONOTONE(p, o_err, o_used)                                                      \
     ((p)->buffer_used >= (o_used) || (o_err) != BINSON_ERROR_NONE)
+/* scan-protocol facts (C06/C07/C08): what a call that asked for exactly one thing has done when it
+ * answers. o_ad = array counter of the level in use at entry, lv = that level (state[idx(o_depth)]) */
+#define VC_ADV_LEAVE_OBJECT 0x04U
+#define VC_ADV_LEAVE_ARRAY  0x10U
+/* a plain next/lookup scan that answers "no" without an error is still at the depth it started at */
+#define VC_ADV_POST_FALSE_SAME_DEPTH(p, ret, scan_flags, o_err, o_depth)                            \
+    ((!(ret) && (o_err) == BINSON_ERROR_NONE && (p)->error_flags == BINSON_ERROR_NONE &&            \
+      (scan_flags) == VC_ADV_VALUE) ==>                                                             \
+     ((p)->depth == (o_depth) || ((p)->type == VC_PT_ARRAY && (o_depth) == 0)))
+/* a leave_array scan that answers "yes" has closed exactly the array it started in */
+#define VC_ADV_POST_LEAVE_ARRAY(p, ret, scan_flags, o_depth, o_ad, lv)                              \
+    (((ret) && (scan_flags) == VC_ADV_LEAVE_ARRAY) ==>                                              \
+     ((p)->depth == (o_depth) && (o_ad) >= 1 && (lv)->array_depth == (o_ad) - 1))
+/* a leave_object scan that answers "yes" has closed exactly the object it started in */
+#define VC_ADV_POST_LEAVE_OBJECT(p, ret, scan_flags, o_depth)                                       \
+    (((ret) && (scan_flags) == VC_ADV_LEAVE_OBJECT) ==> ((o_depth) >= 1 && (p)->depth == (o_depth) - 1))
+/* the same facts as loop invariants (orig_* are the function's own snapshots, e_flags the scan flags at loop entry) */
+#define VC_ADV_LOOP_SCAN_INV(p, scan_flags, e_flags, proceed, orig_od, orig_ad)                     \
+    ((((e_flags) == VC_ADV_VALUE) ==>                                                               \
+      ((p)->depth >= (orig_od) && ((((scan_flags) & VC_ADV_VALUE) == 0) ==> (p)->depth == (orig_od)))) && \
+     (((e_flags) == VC_ADV_LEAVE_ARRAY) ==>                                                         \
+      ((p)->depth >= (orig_od) &&                                                                   \
+       ((((scan_flags) & VC_ADV_LEAVE_ARRAY) != 0) ==>                                              \
+        ((p)->depth > (orig_od) || (p)->state[VC_IDX_OF(orig_od)].array_depth >= (orig_ad))) &&     \
+       ((((scan_flags) & VC_ADV_LEAVE_ARRAY) == 0) ==>                                              \
+        ((p)->depth == (orig_od) && (orig_ad) >= 1 &&                                               \
+         (p)->state[VC_IDX_OF(orig_od)].array_depth == (orig_ad) - 1 && !(proceed))))) &&           \
+     (((e_flags) == VC_ADV_LEAVE_OBJECT) ==>                                                        \
+      ((((scan_flags) & VC_ADV_LEAVE_OBJECT) != 0) ? ((p)->depth >= (orig_od))                      \
+        : ((orig_od) >= 1 && (p)->depth == (orig_od) - 1 && !(proceed)))))
+#define VC_IDX_OF(d)    (((d) > 0) ? (size_t) (d) - 1 : (size_t) 0)
+
 #define VC_ADV_POST_VERIFY_FALSE(ret, scan_flags)                                                   \
     ((((scan_flags) & VC_ADV_VERIFY) != 0) ==> !(ret))
 
